@@ -136,8 +136,14 @@ static double elapsed() {
   return std::chrono::duration<double>(std::chrono::steady_clock::now() - g_t0).count();
 }
 
+extern "C" size_t __sanitizer_get_current_allocated_bytes() __attribute__((weak));
+extern "C" size_t __sanitizer_get_heap_size() __attribute__((weak));
+extern "C" size_t __sanitizer_get_free_bytes() __attribute__((weak));
 static void account(const Case& c, const Src& s) {
   g_st.evaluations++;
+  if ((g_st.evaluations % 20000) == 0 && getenv("VF_MEMSTAT") && __sanitizer_get_heap_size)
+    fprintf(stderr, "memstat cases=%llu live=%zuMB heap=%zuMB free=%zuMB\n", (unsigned long long)g_st.evaluations,
+            __sanitizer_get_current_allocated_bytes() >> 20, __sanitizer_get_heap_size() >> 20, __sanitizer_get_free_bytes() >> 20);
   g_st.subevals += c.subevals;
   for (auto& k : c.classes) g_st.classes[k]++;
   if (c.nontrivial) {
